@@ -210,11 +210,15 @@ static Built build_l1(const sc::Mesh& seed, const std::vector<Op>& h, const loca
 
 static std::string shape_of(const std::vector<Op>& h) { std::string s; for (auto& o : h) { if (!s.empty()) s += ">"; s += kind_name(o.kind); } return s; }
 
+// the visited set keeps a 128-bit digest of the canonical key (two independent 64-bit hashes) instead of the key itself: the thorough tier visits millions of states of ~1 kB each
+struct Key128 { uint64_t a, b; bool operator==(const Key128& o) const { return a == o.a && b == o.b; } };
+struct Key128Hash { size_t operator()(const Key128& k) const { return (size_t)(k.a ^ (k.b * 0x9e3779b97f4a7c15ull)); } };
+static Key128 k128(const std::string& s) { uint64_t a = 1469598103934665603ull, b = 0x84222325cbf29ce4ull; for (unsigned char ch : s) { a ^= ch; a *= 1099511628211ull; b = (b ^ ch) * 0x100000001b3ull + (b >> 29); } b ^= (uint64_t)s.size() * 0x9e3779b97f4a7c15ull; return {a, b}; }
 static void explore_l1(Result& R, const Seed& seed, int depth) {
     local_mesh_refiner lmr(L_MIN, L_MAX, true);
-    std::unordered_set<std::string> seen; std::deque<L1State> frontier;
+    std::unordered_set<Key128, Key128Hash> seen; std::deque<L1State> frontier;
     { Built b = build_l1(seed.mesh, {}, lmr); if (!b.err.empty()) { R.violation("seed|" + clause_of(b.err), "seed " + seed.name + ": " + b.err, "level=L1\nseed=" + seed.name + "\nmesh=" + sc::mesh_to_text(seed.mesh) + "\nhist=\n"); sc::release(b.c); return; }
-      seen.insert(sc::canon_cell(*b.c) + char(b.phase) + char(b.stale)); sc::release(b.c); frontier.push_back({{}, 0, false}); }
+      seen.insert(k128(sc::canon_cell(*b.c) + char(b.phase) + char(b.stale))); sc::release(b.c); frontier.push_back({{}, 0, false}); }
     long& states = R["states"]; long& trans = R["transitions"]; states++;
     long replay_checked = 0;
     while (!frontier.empty()) {
@@ -239,7 +243,7 @@ static void explore_l1(Result& R, const Seed& seed, int depth) {
             if (nb.flat) { R["histories_ending_in_a_flattened_mesh"]++; sc::release(nb.c); continue; }
             if (nb.dead) { R["operations_that_reported_failure_by_exception"]++; R.tables["exceptions_per_operation"][kind_name(op.kind)]++; sc::release(nb.c); continue; }
             std::string key = sc::canon_cell(*nb.c) + char(nb.phase) + char(nb.stale);
-            bool isnew = seen.insert(key).second; sc::release(nb.c);
+            bool isnew = seen.insert(k128(key)).second; sc::release(nb.c);
             if (isnew) { R.mix(key); states++; if ((int)h2.size() < depth) frontier.push_back({h2, nb.phase, nb.stale}); if (states % 20000 == 1) R.sample("{\"level\":\"L1\",\"seed\":\"" + seed.name + "\",\"history\":" + hist_json(h2) + "}"); }
         }
     }
@@ -334,8 +338,8 @@ static BuiltL2 build_l2(const sc::Mesh& seed, const std::vector<Op>& h) {
 static void explore_l2(Result& R, const Seed& seed, int depth) {
     std::vector<Op> alphabet; for (unsigned d = 10; d <= 19; d++) alphabet.push_back({L2_DEFORM, d, 0});
     alphabet.push_back({L2_REFINE_SWAP, 0, 0}); alphabet.push_back({L2_REFINE_NOSWAP, 0, 0}); alphabet.push_back({L2_REBASE, 0, 0}); alphabet.push_back({L2_REFRESH, 0, 0});
-    std::unordered_set<std::string> seen; std::deque<std::vector<Op>> frontier; frontier.push_back({});
-    { BuiltL2 b = build_l2(seed.mesh, {}); seen.insert(sc::canon_cell(*b.c) + char(b.stale)); sc::release(b.c); }
+    std::unordered_set<Key128, Key128Hash> seen; std::deque<std::vector<Op>> frontier; frontier.push_back({});
+    { BuiltL2 b = build_l2(seed.mesh, {}); seen.insert(k128(sc::canon_cell(*b.c) + char(b.stale))); sc::release(b.c); }
     long& states = R["states"]; long& trans = R["transitions"]; states++;
     while (!frontier.empty()) {
         if (R.out_of_time(0.85)) { R.cap("deadline reached in L2 search on seed " + seed.name); return; }
@@ -353,7 +357,7 @@ static void explore_l2(Result& R, const Seed& seed, int depth) {
             if (nb.dead) { R["passes_that_reported_failure_by_exception"]++; R.tables["pass_exceptions"][(g_pass.threw_in_op ? "inside " + g_pass.aborted_op.substr(0, g_pass.aborted_op.find('(')) + (g_pass.state_when_aborted.empty() ? " [surface intact]: " : " [surface torn: " + clause_of(g_pass.state_when_aborted) + "]: ") : std::string("by the pass itself: ")) + nb.what.substr(0, 80)]++; sc::release(nb.c); continue; }
             if (op.kind == L2_REFINE_SWAP || op.kind == L2_REFINE_NOSWAP) { R["ops_inside_passes"] += g_pass.ops; R.tables["ops_inside_passes"]["split"] += g_pass.splits; R.tables["ops_inside_passes"]["merge"] += g_pass.merges; R.tables["ops_inside_passes"]["swap"] += g_pass.swaps; }
             size_t nlive = nb.c->get_nb_of_nodes();
-            std::string key = sc::canon_cell(*nb.c) + char(nb.stale); bool isnew = seen.insert(key).second; sc::release(nb.c);
+            std::string key = sc::canon_cell(*nb.c) + char(nb.stale); bool isnew = seen.insert(k128(key)).second; sc::release(nb.c);
             if (isnew) { R.mix(key); states++; if ((int)h2.size() < depth && nlive <= 400) frontier.push_back(h2); if (states % 500 == 1) R.sample("{\"level\":\"L2\",\"seed\":\"" + seed.name + "\",\"history\":" + hist_json(h2) + "}"); }
         }
     }
